@@ -41,8 +41,8 @@ class BuildConfiguration(dict):
                     # hexadecimal value
                     kconfig_value = int(kconfig_value, base=16)
                 elif kconfig_value.startswith('"') and kconfig_value.endswith('"'):
-                    # string value
-                    kconfig_value = kconfig_value[1:-1]
+                    # string value: Kconfig escapes double quotes and backslashes with a backslash
+                    kconfig_value = re.sub(r"\\(.)", r"\1", kconfig_value[1:-1])
                 elif kconfig_value.isdecimal():
                     # int value
                     kconfig_value = int(kconfig_value, base=10)
